@@ -21,6 +21,7 @@ class Tests:
         self.bool_edges = []
         self.disc_edges = []
         self.int_edges = []
+        self.disc_adt = {}      # test block -> ADT whose discriminant is switched on
         self.bool_phis = []     # (defs [(block, "true"|"false"|"expr")], true block, false block, test block)
         self._phi_pending = []
         self._scan()
@@ -90,6 +91,7 @@ class Tests:
                         if len(rest) == 1:
                             names[rest[0]] = other
                     self.disc_edges.append((pe, names, other, bi))
+                    self.disc_adt[bi] = adt
                     expr = None
                     break
                 break
